@@ -88,7 +88,7 @@ def run(chk):
     ok, rep = chk.proofs()
     chk.assumptions += ["the solver is an oracle: faults are injected from outside by wrapping QuantileRegressionSolver.fit; 'same tables' is checked at 1e-6 relative",
                         "fits of the outlier-detection models do not go through fit_model and are outside the property (outlier models off in these runs)"]
-    configs = CONFIGS if chk.tier == "thorough" else CONFIGS[:4]
+    configs = CONFIGS
     rng = random.Random(chk.seed * 613 + 20)
     seeds = [rng.randint(0, 2**31) for _ in configs]
     base_jobs = [(s, kw, None, None) for s, kw in zip(seeds, configs)]
@@ -129,7 +129,7 @@ def run(chk):
                 chk.violation(f"{kind} at fit {k}: retry passes {key}={d2!r}, the failed attempt had {d1!r}", replay, {"kind": "retry-args", "arg": key})
         diff = compare_tables(b["tables"], o["tables"])
         if diff:
-            chk.violation(f"{kind} at fit {k} of {o['cfg']}: {diff}", replay, {"kind": "tables-differ"})
+            chk.violation(f"{kind} at fit {k} of {o['cfg']}: {diff}", replay, {"kind": "tables-differ", "regularised": bool(o["cfg"]["lambda"])})
     if not ok and not [v for v in chk.violations if not v["no_input"]]:
         chk.violation("proof obligations / generated facts of C20 no longer check", {"theorem_file": "coq/Properties/C20.v", "log": rep.get("log_tail", "")[-1500:],
                                                                                    "translator": chk.notes.get("translator_problems")}, {"kind": "proof-broken"}, no_input=True)
